@@ -109,7 +109,17 @@ def judge(case, script, bucket, status, res, emit, err, unspec, expected_fn, nid
             msg = str(res)
             m = __import__("re").search(r"(Binder|Parser|Catalog|Conversion|Out of Range|Invalid Input|Not implemented) Error", msg)
             fam = "decimal-scale-overflow" if "scale" in msg.lower() and "multiplication" in msg.lower() else (f"{name}:{m.group(0)}" if m else name)
-            emit({"v": "viol", "b": bucket, "mech": f"{case['level']}/valid-expression-raises/{fam}",
+            shape = ""
+            if case["level"] == "dataset":
+                cmp_ops = {"=", "<>", "<", ">", "<=", ">=", "and", "or", "xor", "between", "isnull"}
+                shape = "comparison-of-dataset-expressions/" if set(ops) & cmp_ops else "arithmetic/"
+                if "Binder Error" in fam and depth_of(case["tree"]) >= 2:
+                    shape = "nested-dataset-expression/"
+            mech = f"{case['level']}/{shape}valid-expression-raises/{fam}"
+            if fam == "decimal-scale-overflow":
+                nmul = _mul_depth(_tuplify(case["tree"]))
+                mech = f"number-multiplication-chain/decimal-scale-overflow/{'4-or-more-factors' if nmul >= 3 else 'fewer-than-4-factors'}"
+            emit({"v": "viol", "b": bucket, "mech": mech,
                   "what": f"{script} raised {name} {code}: {str(res)[:200]} but every datapoint has a defined value", "case": case})
         return
     if err:
@@ -134,6 +144,33 @@ def judge(case, script, bucket, status, res, emit, err, unspec, expected_fn, nid
         if nonempty:
             rec["sample"] = {"script": script, "rows": len(expected) if isinstance(expected, list) else 1}
         emit(rec)
+
+
+def _mul_depth(tree):
+    """largest number of '*' (and power) operators on a path of the tree: n nested multiplications of Numbers need scale 10*(n+1)"""
+    # returns the number of Number factors multiplied together on the widest product of the tree (upper bound):
+    # DECIMAL scales add up under '*' (10 per Number operand) and DuckDB refuses a scale above 38
+    def factors(t):
+        if t[0] in ("c", "ds"):
+            return 1, 1
+        if t[0] != "op":
+            return (1 if isinstance(t[1], float) else 0), 0
+        subs = [factors(c) for c in t[2] if isinstance(c, (tuple, list)) and c and c[0] in ("op", "c", "k", "ds")]
+        worst = max([w for _, w in subs] or [0])
+        if t[1] == "*":
+            f = sum(f for f, _ in subs)
+        elif t[1] in ("+", "-", "neg", "pos", "abs", "nvl", "if", "case", "round", "trunc"):
+            f = max([f for f, _ in subs] or [0])
+        else:
+            f = 1
+        return f, max(worst, f)
+    return factors(tree)[1] - 1
+
+
+def depth_of(tree):
+    if tree[0] != "op":
+        return 0
+    return 1 + max([depth_of(c) for c in tree[2]] or [0])
 
 
 def root_key(ops):
@@ -317,6 +354,9 @@ def vtl_ds(tree):
     return f"{op}({', '.join(parts)})"
 
 
+INTERMEDIATE = {"err": False, "unspec": False}
+
+
 def ev_ds(tree, data):
     """-> ('sc', value) | ('ds', ids(list), {key: [measure values]}) ; measures by position"""
     from vf import model
@@ -328,6 +368,14 @@ def ev_ds(tree, data):
     op, ch = tree[1], tree[2]
     vals = [ev_ds(c, data) for c in ch]
     dsv = [v for v in vals if v[0] == "ds"]
+    for v in dsv:
+        # an error (or an undecided point) in an intermediate dataset concerns the whole statement, even when the
+        # datapoint is later dropped by the inner match of an enclosing operator
+        for meas in v[2].values():
+            if any(x is model.ERR for x in meas):
+                INTERMEDIATE["err"] = True
+            if any(x is model.UNSPEC for x in meas):
+                INTERMEDIATE["unspec"] = True
     if not dsv:
         return ("sc", model.apply(op, [v[1] for v in vals]))
     # result identifiers = the largest identifier list; others must be subsets (generator guarantees nesting)
@@ -378,13 +426,17 @@ def run_dataset_case(case, emit):
     if tree[0] == "ds":
         emit({"v": "skip", "why": "degenerate tree"})
         return
+    INTERMEDIATE.update(err=False, unspec=False)
     r = ev_ds(tree, data)
     if r[0] != "ds":
         emit({"v": "skip", "why": "scalar-only tree"})
         return
     flat = [v for meas in r[2].values() for v in meas]
-    err = any(v is model.ERR for v in flat)
-    unspec = any(v is model.UNSPEC for v in flat)
+    err = any(v is model.ERR for v in flat) or INTERMEDIATE["err"]
+    unspec = any(v is model.UNSPEC for v in flat) or INTERMEDIATE["unspec"]
+    if err and not any(v is model.ERR for v in flat):
+        # the erroring datapoint does not survive to the result: whether it must still raise is left open
+        err, unspec = False, True
     used = sorted({n for n in _names(tree)})
     idrel = "/".join(str(len(data[n][0])) for n in used)
     ops = tree_ops(_tuplify(tree))
